@@ -78,6 +78,10 @@ pub struct Interpreter<TStdlib: Stdlib, TStdIn: Input, TStdOut: Printer, TLpt1: 
 
     print_state: PrintState,
 
+    /// The states of the PRINT statements that are waiting for a function,
+    /// called by one of their arguments, to return (that function may PRINT too).
+    outer_print_states: Vec<PrintState>,
+
     data_segment: DataSegment,
 
     def_seg: Option<usize>,
@@ -304,6 +308,7 @@ impl<TStdlib: Stdlib, TStdIn: Input, TStdOut: Printer, TLpt1: Printer>
             last_error_address: None,
             last_error_code: None,
             print_state: PrintState::new(),
+            outer_print_states: vec![],
             data_segment: DataSegment::default(),
             def_seg: None,
             #[cfg(feature = "verif")]
@@ -567,6 +572,9 @@ impl<TStdlib: Stdlib, TStdIn: Input, TStdOut: Printer, TLpt1: Printer>
                 self.registers_mut().set_a(v);
             }
             Instruction::PrintSetPrinterType(printer_type) => {
+                // a PRINT statement starts: it gets a state of its own until PrintEnd
+                let outer = std::mem::replace(&mut self.print_state, PrintState::new());
+                self.outer_print_states.push(outer);
                 self.print_state.set_printer_type(*printer_type);
             }
             Instruction::PrintSetFileHandle(file_handle) => {
@@ -650,6 +658,10 @@ impl<TStdlib: Stdlib, TStdIn: Input, TStdOut: Printer, TLpt1: Printer>
         if should_print_new_line {
             printer.println()?;
         }
+        // back to the PRINT statement that was interrupted, if any
+        if let Some(outer) = self.outer_print_states.pop() {
+            self.print_state = outer;
+        }
         Ok(())
     }
 
@@ -661,6 +673,7 @@ impl<TStdlib: Stdlib, TStdIn: Input, TStdOut: Printer, TLpt1: Printer>
             by_ref_stack: self.by_ref_stack.len(),
             context_states: self.context.states_len(),
             stacktrace: self.stacktrace.len(),
+            print_states: self.outer_print_states.len(),
         }
     }
 
@@ -674,6 +687,9 @@ impl<TStdlib: Stdlib, TStdIn: Input, TStdOut: Printer, TLpt1: Printer>
         self.by_ref_stack.truncate(entry.by_ref_stack);
         self.function_result = None;
         self.context.truncate_states(entry.context_states);
+        while self.outer_print_states.len() > entry.print_states {
+            self.print_state = self.outer_print_states.pop().unwrap();
+        }
         if self.stacktrace.len() > entry.stacktrace {
             let extra = self.stacktrace.len() - entry.stacktrace;
             self.stacktrace.drain(0..extra);
@@ -705,6 +721,7 @@ struct StatementEntry {
     by_ref_stack: usize,
     context_states: usize,
     stacktrace: usize,
+    print_states: usize,
 }
 
 /// Context available to the execution of a single instruction.
